@@ -26,6 +26,8 @@ func main() {
 		devMain(os.Args[2:])
 	case "check":
 		checkMain(os.Args[2:])
+	case "replay":
+		replayMain(os.Args[2:])
 	default:
 		fmt.Fprintln(os.Stderr, "unknown command", os.Args[1])
 		os.Exit(2)
